@@ -307,10 +307,13 @@ def run_shard(args):
             obs = observe(root, rng, used, st, [])
             txt = old_text(root)
             getitem = rng.random() < 0.25
+            reps = 1 if rng.random() < 0.6 else rng.choice([2, 3])  # repeated evaluation: the argument is re-evaluated and unmanaged values refreshed
             if getitem:
-                sites.append({"id": i, "op": "getitem", "child": "eq", "old": "{'key': " + txt + "}", "obs": [("'key'", obs)], "place": "loop"})
+                sites.append({"id": i, "op": "getitem", "child": "eq", "old": "{'key': " + txt + "}", "obs": [("'key'", obs)] * reps, "place": "loop"})
             else:
-                sites.append({"id": i, "op": rng.choice(["eq", "eq", "req"]), "old": txt, "obs": [obs], "place": rng.choice(["loop", "helper", "module"])})
+                sites.append({"id": i, "op": rng.choice(["eq", "eq", "req"]), "old": txt, "obs": [obs] * reps, "place": rng.choice(["loop", "helper", "module"])})
+            if reps > 1:
+                C["repeated_evaluation_sites"] = C.get("repeated_evaluation_sites", 0) + 1
             metas[i] = (root, st, txt)
         header = HEADER + "U = [" + ", ".join(U) + "]\n"
         src, order = program.build(sites, style="rec", tests=rng.randint(1, 2), header=header)
@@ -330,6 +333,10 @@ def run_shard(args):
                 continue
             new_src = res.files_after["test_a.py"].decode()
             wit = {"files": {"test_a.py": src}, "flags": sorted(F)}
+            raised = [e for e in res.logs.get("test_a.py", []) if e[1] == "exc"]
+            if raised:
+                out["violations"].append({"kind": "comparison-raised", "detail": {"F": sorted(F), "events": raised[:4]}, "witness": wit, "finding": None})
+                continue
             try:
                 new_args, _ = program.outer_snapshot_args(new_src)
             except SyntaxError as e:
